@@ -765,23 +765,26 @@ Fixpoint fields_ok (cols : list column) (fmts : list Z) (fs : list (option bytes
   | _, _, _, _ => false
   end.
 
-Record c9state := { c9_fmts : option (list Z); c9_left : list (list value); c9_ok : bool }.
+(* the announced formats are kept in a queue: a client may describe several portals of the
+   statement before executing them (in the same order); each execution uses the oldest
+   announcement not yet used and ends with its CommandComplete *)
+Record c9state := { c9_queue : list (list Z); c9_left : list (list value); c9_ok : bool }.
 
 Definition c9_step (s : stmt) (rows : list (list value)) (st : c9state) (m : bmsg) : c9state :=
   if negb (c9_ok st) then st else
   match m with
   | BRowDesc cds =>
-      {| c9_fmts := Some (map cd_fmt cds); c9_left := rows;
+      {| c9_queue := c9_queue st ++ [map cd_fmt cds]; c9_left := c9_left st;
          c9_ok := (lenZ cds =? lenZ (s_cols s)) &&
                   list_names_ok (s_cols s) cds |}
   | BDataRow fs =>
-      match c9_fmts st, c9_left st with
-      | Some fmts, vs :: r =>
-          {| c9_fmts := c9_fmts st; c9_left := r; c9_ok := fields_ok (s_cols s) fmts fs vs |}
-      | _, _ => {| c9_fmts := c9_fmts st; c9_left := []; c9_ok := false |}
+      match c9_queue st, c9_left st with
+      | fmts :: _, vs :: r =>
+          {| c9_queue := c9_queue st; c9_left := r; c9_ok := fields_ok (s_cols s) fmts fs vs |}
+      | _, _ => {| c9_queue := c9_queue st; c9_left := []; c9_ok := false |}
       end
   | BComplete _ =>
-      {| c9_fmts := None; c9_left := []; c9_ok := match c9_left st with [] => true | _ => false end |}
+      {| c9_queue := tl (c9_queue st); c9_left := rows; c9_ok := match c9_left st with [] => true | _ => false end |}
   | _ => st
   end.
 
@@ -794,5 +797,5 @@ Definition oracle_C09 (sc : scase) (log : list ev) : bool :=
   | None => true
   | Some s =>
       let rows := flat_map (fun o => match o with HRow vs => [vs] | _ => [] end) (s_prog s) in
-      c9_ok (fold_left (c9_step s rows) (outs log) {| c9_fmts := None; c9_left := []; c9_ok := true |})
+      c9_ok (fold_left (c9_step s rows) (outs log) {| c9_queue := []; c9_left := rows; c9_ok := true |})
   end.
